@@ -19,7 +19,9 @@ ID_A, ID_B = 0x0822, 0x1833
 # a second registration: three IDs, two of which agree in their first octet (neighbouring APIDs of one type), and a TM/TC pair
 # of the same APID
 IDSETS = {"ab": [(PacketType.TM, True, 0x22), (PacketType.TC, True, 0x33)],
-          "near": [(PacketType.TM, True, 0x123), (PacketType.TM, True, 0x124), (PacketType.TC, True, 0x123)]}
+          "near": [(PacketType.TM, True, 0x123), (PacketType.TM, True, 0x124), (PacketType.TC, True, 0x123)],
+          # a packet ID whose first octet is 0x00 (TM, no secondary header, APID <= 0xFF): fill octets are often zeros
+          "zero": [(PacketType.TM, False, 0x22), (PacketType.TC, True, 0x33)]}
 _cur = ["ab"]
 
 
@@ -127,14 +129,35 @@ def h_single_call(ctx, N):
     ctx.holds("idle call returns nothing and keeps the tail", sym_and(len(got2) == 0, same_items(queue_tail(q), b[tail:])))
 
 
-def h_garbage(ctx, d1, g, d2, cuts):
-    _cur[0] = "ab"
+def h_ids_list_edited(ctx):
+    """the registered IDs are whatever the list the caller passes holds at the time of the call"""
+    def packet(name, pid, d):
+        return be(pid, 2) + [ctx.int(name + "_psc_hi", 0, 255), ctx.int(name + "_psc_lo", 0, 255)] + be(d, 2) + items_of(ctx.octets(name, d + 1))
+    my_ids = [PacketId(PacketType.TM, True, 0x22), PacketId(PacketType.TC, True, 0x33)]
+    pa, pb, pc = packet("a", 0x0822, 0), packet("b", 0x1833, 1), packet("c", 0x0844, 0)
+    q = deque([ctx.bytes_of(pa + pb, mutable=True)])
+    got = parse_space_packets(q, my_ids)
+    ctx.holds("first call: both registered packets", same_packets(got, [pa, pb]))
+    my_ids[0] = PacketId(PacketType.TM, True, 0x44)          # same list object, same length, other content
+    q.append(ctx.bytes_of(pc + pb + pa, mutable=True))
+    got = parse_space_packets(q, my_ids)
+    ctx.holds("after the list was edited in place: packets of the newly listed ID are returned, those of the removed one are not",
+              same_packets(got, [pc, pb]), "returned %d packets" % len(got))
+    my_ids[0], my_ids[1] = my_ids[1], my_ids[0]              # swapped
+    q.clear()
+    q.append(ctx.bytes_of(pb + pc, mutable=True))
+    ctx.holds("after swapping the entries: unchanged result", same_packets(parse_space_packets(q, my_ids), [pb, pc]))
+
+
+def h_garbage(ctx, d1, g, d2, cuts, idset="ab", zeros=False):
+    _cur[0] = idset
+    id1, id2 = [((int(t[0]) << 12) | (int(t[1]) << 11) | t[2]) for t in IDSETS[idset][:2]]
     def packet(name, pid, d):
         body = ctx.octets(name, d + 1)
         return be(pid | (ctx.int(name + "_ver", 0, 7) << 13), 2) + [ctx.int(name + "_psc_hi", 0, 255), ctx.int(name + "_psc_lo", 0, 255)] \
             + be(d, 2) + items_of(body)
-    p1, p2 = packet("p1", ID_A, d1), packet("p2", ID_B, d2)
-    junk = items_of(ctx.octets("junk", g))
+    p1, p2 = packet("p1", id2, d1), packet("p2", id1, d2)
+    junk = [0] * g if zeros else items_of(ctx.octets("junk", g))
     b = p1 + junk + p2
     for i in range(len(p1), len(p1) + g):
         ctx.assume(sym_not(registered(b, i)))
@@ -163,6 +186,14 @@ def cases(tier):
             cs.append(Case("cut-near-N%d-k%d" % (N, k), "cut", h_lossless, dict(N=N, cuts=(min(k, N),), idset="near"), budget=1200,
                            bounds="three registered IDs (two share their first octet, two share their APID): every well-formed stream "
                                   "prefix of %d octets, cut at %d" % (N, min(k, N))))
+    for g in (1, 2, 3):
+        for cuts in ((), (8,), (10 + g,)):
+            for zeros in (True, False):
+                cs.append(Case("garbage-zero-id-g%d-%s%s" % (g, "k%d" % cuts[0] if cuts else "whole", "-zeros" if zeros else ""), "garbage", h_garbage,
+                               dict(d1=0, g=g, d2=0, cuts=cuts, idset="zero", zeros=zeros), budget=1200,
+                               bounds="a registered ID starting with octet 0x00; %d %s octets between two packets, cuts %s" % (
+                                   g, "zero fill" if zeros else "arbitrary non-ID", cuts)))
+    cs.append(Case("ids-list-edited", "single", h_ids_list_edited, {}, bounds="the caller's list of packet IDs edited in place between calls"))
     cs.append(Case("cut-twin", "cut", h_lossless, dict(N=8, cuts=(3,), twin=True), expect_violation=True, bounds="reachability twin"))
     for g in tier_pick(tier, (1, 2, 3), (1, 2, 3, 4, 5, 8)):
         for d1, d2 in ((0, 0), (1, 0)):
